@@ -62,11 +62,13 @@ def run(tier):
     gs = [g for g in gram.corpus() if not g.recovery]
     nrand = 14 if tier == "quick" else 150
     gs += [gram.random_grammar(r, i) for i in range(nrand)]
+    gs += [gram.nonlalr_family(r, i) for i in range(4 if tier == "quick" else 40)]
+    gs += [gram.nonlalr_matrix(r, i) for i in range(10 if tier == "quick" else 120)]
     c = lrcheck.prepare(gs)
     cobl, cdis, failing = lrcheck.certify(PROP, rep, c, parts=("valid", "productive"), name="c04cert")
     cases = gen_cases(c, r, 12 if tier == "quick" else 40)
     dec, nbad = lrcheck.correspond(PROP, rep, c, cases, make_judge(c), "c04")
-    lrcheck.report_cert_failures(PROP, rep, c, failing, bool(rep.viol))
+    lrcheck.report_cert_failures(PROP, rep, c, failing, bool(rep.viol), make_judge(c), r)
     kinds = {}
     for d in dec:
         k = d["kind"] + ":" + d.get("err", {}).get("e", "")
